@@ -6,6 +6,7 @@ let () =
     | "buffer" -> M_buffer.handle
     | "cli" -> M_cli.handle
     | "prep" -> M_prep.handle
+    | "cycles" -> M_cycles.handle
     | _ -> prerr_endline ("unknown component " ^ comp); exit 2 in
   let out = Buffer.create 65536 in
   (try while true do
